@@ -101,6 +101,7 @@ func (w *c03World) apply(sym string) error {
 		_, _, err := w.db.UpdatePrincipal(ctx, cfg, true, true)
 		return err
 	}
+	conflictTag := "conflict"
 	putDoc := func(id string, body Body, g c03Grant, conflict bool) error {
 		docID := w.n(id)
 		m := w.docs[id]
@@ -123,7 +124,7 @@ func (w *c03World) apply(sym string) error {
 					root = rev
 				}
 			}
-			newRev := fmt.Sprintf("2-conflict%d", len(m.leaves))
+			newRev := fmt.Sprintf("2-%s%d", conflictTag, len(m.leaves))
 			_, _, err = w.coll.PutExistingRevWithBody(ctx, docID, body, []string{newRev, root}, false, ExistingVersionWithUpdateToHLV)
 			if err != nil {
 				return err
@@ -212,8 +213,14 @@ func (w *c03World) apply(sym string) error {
 	}
 	// granting document writes: "<doc>[-conflict]:<grantee>:<channel>" or "<doc>:u1-gets-r1" or "<doc>:none"
 	parts := strings.Split(sym, ":")
-	id := strings.TrimSuffix(parts[0], "-conflict")
-	conflict := strings.HasSuffix(parts[0], "-conflict")
+	id := parts[0]
+	conflict := false
+	for suffix, tag := range map[string]string{"-conflict": "conflict", "-conflicthi": "zzconflict", "-conflictlo": "00conflict"} {
+		if strings.HasSuffix(parts[0], suffix) {
+			// the digest decides which branch wins: "zz..." beats every hexadecimal digest, "00..." loses to practically all
+			id, conflict, conflictTag = strings.TrimSuffix(parts[0], suffix), true, tag
+		}
+	}
 	body := Body{"channels": []string{"D"}}
 	g := c03Grant{}
 	switch {
@@ -400,7 +407,7 @@ func (e *c03Env) run(t testing.TB, r *vreport.Report, hist []string) {
 func TestVerifC03(t *testing.T) {
 	r := vreport.Begin("C03")
 	defer r.Finish(t)
-	r.Rule("every history up to depth D over an 18-symbol alphabet (admin channel / role assignment of a user, role channels, role delete / re-create, user created late, granting document write with access() for a user / a role, role() grant, grant to a not-yet-created user, grant removal, delete, conflicting revision, second document granting the same channel) on a real database, from the empty database and (depth D-1) from three bases in which a granting document has two live conflicting leaves carrying different kinds of grant; after every step every principal's effective channels and role names are compared with the model; non-trivial = distinct history")
+	r.Rule("every history up to depth D over an 18-symbol alphabet (admin channel / role assignment of a user, role channels, role delete / re-create, user created late, granting document write with access() for a user / a role, role() grant, grant to a not-yet-created user, grant removal, delete, conflicting revision, second document granting the same channel) on a real database, from the empty database and (depth D-1) from four bases in which a granting document has two live conflicting leaves carrying different kinds of grant; after every step every principal's effective channels and role names are compared with the model; non-trivial = distinct history")
 	r.Assume("default sync-function semantics: grants come from the current winning revision of live documents; one database is reused with per-history principal and document names")
 	db, ctx := SetupTestDBWithOptions(t, DatabaseContextOptions{AllowConflicts: base.Ptr(true), CacheOptions: base.Ptr(DefaultCacheOptions()), Scopes: GetScopesOptionsDefaultCollectionOnly(t), BcryptCost: 4})
 	defer db.Close(ctx)
@@ -456,9 +463,10 @@ func TestVerifC03(t *testing.T) {
 	// different kind than the winning one (which of the two wins depends on the revision digests, so both
 	// assignments are used); a state the depth bound does not reach from the empty database
 	bases := [][]string{
-		{"r1-adm-B", "g1:none", "g1:u1:C1", "g1-conflict:u1-gets-r1"},
-		{"r1-adm-B", "g1:none", "g1:u1-gets-r1", "g1-conflict:u1:C4"},
-		{"r1-adm-B", "g1:none", "g1:role-r1:C2", "g1-conflict:u1:C4"},
+		{"r1-adm-B", "g1:none", "g1:u1:C1", "g1-conflictlo:u1-gets-r1"},
+		{"r1-adm-B", "g1:none", "g1:u1-gets-r1", "g1-conflicthi:u1:C4"},
+		{"r1-adm-B", "g1:none", "g1:role-r1:C2", "g1-conflicthi:u1:C4"},
+		{"r1-adm-B", "g1:none", "g1:u1:C4", "g1-conflictlo:role-r1:C2"},
 	}
 	D2 := D - 1
 	r.Note("depth_from_conflicted_bases", D2)
